@@ -9,7 +9,7 @@ def PC.holdsLock : PC → Bool
   | _ => false
 /-- the call is published in `g.calls` -/
 def PC.inFlight : PC → Bool
-  | .n3 | .m0 | .m1 | .m2 | .d0 | .d1 => true
+  | .n3 | .m0 | .m1 | .mp | .m2 | .d0 | .d1 => true
   | _ => false
 /-- the goroutine looked the key up, found nothing, has not published yet -/
 def PC.preReg : PC → Bool
@@ -17,23 +17,31 @@ def PC.preReg : PC → Bool
   | _ => false
 /-- the goroutine owns a `call` object it allocated -/
 def PC.owns : PC → Bool
-  | .n1 | .n2 | .n3 | .m0 | .m1 | .m2 | .d0 | .d1 | .d2 | .d3 | .r0 => true
+  | .n1 | .n2 | .n3 | .m0 | .m1 | .mp | .m2 | .d0 | .d1 | .d2 | .d3 | .r0 | .px => true
   | _ => false
 /-- … and has published it -/
 def PC.pubd : PC → Bool
-  | .n3 | .m0 | .m1 | .m2 | .d0 | .d1 | .d2 | .d3 | .r0 => true
+  | .n3 | .m0 | .m1 | .mp | .m2 | .d0 | .d1 | .d2 | .d3 | .r0 | .px => true
   | _ => false
 def PC.wgOne : PC → Bool
-  | .n2 | .n3 | .m0 | .m1 | .m2 | .d0 | .d1 | .d2 | .d3 => true
+  | .n2 | .n3 | .m0 | .m1 | .mp | .m2 | .d0 | .d1 | .d2 | .d3 => true
   | _ => false
 def PC.noRes : PC → Bool
-  | .n1 | .n2 | .n3 | .m0 | .m1 => true
+  | .n1 | .n2 | .n3 | .m0 | .m1 | .mp => true
   | _ => false
 def PC.stored : PC → Bool
-  | .d0 | .d1 | .d2 | .d3 | .r0 => true
+  | .d0 | .d1 | .d2 | .d3 | .r0 | .px => true
   | _ => false
 def PC.waits : PC → Bool
   | .w0 | .w1 | .w2 => true
+  | _ => false
+/-- the deferred block of `makeCall` (and what follows it) -/
+def PC.deferred : PC → Bool
+  | .d0 | .d1 | .d2 | .d3 | .px => true
+  | _ => false
+/-- the goroutine's call object is past `Done` -/
+def PC.after : PC → Bool
+  | .r0 | .px => true
   | _ => false
 
 /-- `a` is earlier than the (possibly not yet existing) time `o`. -/
@@ -43,7 +51,7 @@ theorem before_none (a : Nat) : before a none = True := rfl
 theorem before_some (a b : Nat) : before a (some b) = (a < b) := rfl
 
 /-- the leader of call `c` is done with it (wait-group released, result stored) -/
-def finished (s : St) (c : CallId) : Prop := s.lret c ≠ none ∨ (s.pc (s.leader c) = .r0 ∧ s.reg (s.leader c) = c)
+def finished (s : St) (c : CallId) : Prop := s.lret c ≠ none ∨ ((s.pc (s.leader c)).after = true ∧ s.reg (s.leader c) = c)
 /-- the leader of call `c` has published it (or is long gone) -/
 def published (s : St) (c : CallId) : Prop := s.lret c ≠ none ∨ ((s.pc (s.leader c)).pubd = true ∧ s.reg (s.leader c) = c)
 
@@ -61,7 +69,7 @@ structure Inv (s : St) : Prop where
   owns   : ∀ u, (s.pc u).owns = true → s.reg u < s.next ∧ s.leader (s.reg u) = u ∧ s.ekey (s.reg u) = s.key u
               ∧ s.linv (s.reg u) = s.inv u ∧ s.lret (s.reg u) = none
   wg1    : ∀ u, (s.pc u).wgOne = true → s.wg (s.reg u) = 1
-  wg0    : ∀ u, (s.pc u = .n1 ∨ s.pc u = .r0) → s.wg (s.reg u) = 0
+  wg0    : ∀ u, (s.pc u = .n1 ∨ (s.pc u).after = true) → s.wg (s.reg u) = 0
   nores  : ∀ u, (s.pc u).noRes = true → s.fnres (s.reg u) = none
   tmpres : ∀ u, s.pc u = .m2 → s.fnres (s.reg u) = some (s.tmp u)
   stored : ∀ u, (s.pc u).stored = true → s.fnres (s.reg u) = some (s.cval (s.reg u))
@@ -74,21 +82,27 @@ structure Inv (s : St) : Prop where
   tlinv  : ∀ c, c < s.next → s.linv c < s.now
   tlret  : ∀ c r, s.lret c = some r → r < s.now ∧ c < s.next
   rets   : ∀ r ∈ s.rets, RetOK s r
+  -- panicking executions
+  cv0    : ∀ u, (s.pc u).noRes = true → s.cval (s.reg u) = 0
+  pnpc   : ∀ u, (s.pc u).owns = true → s.pn u = true → (s.pc u).deferred = true
+  pnpx   : ∀ u, s.pc u = .px → s.pn u = true
+  pnown  : ∀ u, (s.pc u).owns = true → s.pan (s.reg u) = s.pn u
+  panz   : ∀ c, c < s.next → s.pan c = true → s.fnres c = some 0
 
 theorem inv_init : Inv init := by
-  constructor <;> simp [init, PC.holdsLock, PC.inFlight, PC.preReg, PC.owns, PC.wgOne, PC.noRes, PC.stored, PC.waits]
+  constructor <;> simp [init, PC.holdsLock, PC.inFlight, PC.preReg, PC.owns, PC.wgOne, PC.noRes, PC.stored, PC.waits, PC.deferred, PC.after]
 
 macro "step_cases" hs:ident : tactic =>
   `(tactic| (unfold step at $hs:ident; split at $hs:ident <;> (try split at $hs:ident) <;> simp at $hs:ident <;> (try subst $hs:ident)))
 
 macro "close_step" hs:ident : tactic =>
   `(tactic| (step_cases $hs:ident <;>
-      simp [upd, PC.holdsLock, PC.inFlight, PC.preReg, PC.owns, PC.pubd, PC.wgOne, PC.noRes, PC.stored, PC.waits,
+      simp [upd, PC.holdsLock, PC.inFlight, PC.preReg, PC.owns, PC.pubd, PC.wgOne, PC.noRes, PC.stored, PC.waits, PC.deferred, PC.after,
             finished, published, before] at * <;> grind))
 
 macro "close_step'" hs:ident : tactic =>
   `(tactic| (step_cases $hs:ident <;>
-      simp [upd, PC.holdsLock, PC.inFlight, PC.preReg, PC.owns, PC.pubd, PC.wgOne, PC.noRes, PC.stored, PC.waits,
+      simp [upd, PC.holdsLock, PC.inFlight, PC.preReg, PC.owns, PC.pubd, PC.wgOne, PC.noRes, PC.stored, PC.waits, PC.deferred, PC.after,
             finished, published] at * <;> grind [before_none, before_some]))
 
 variable {s s' : St} {t : Tid} {x : Nat}
@@ -149,7 +163,7 @@ theorem wg1_step (h : Inv s) (hs : step s t x = some s') :
   close_step hs
 
 theorem wg0_step (h : Inv s) (hs : step s t x = some s') :
-    ∀ u, (s'.pc u = .n1 ∨ s'.pc u = .r0) → s'.wg (s'.reg u) = 0 := by
+    ∀ u, (s'.pc u = .n1 ∨ (s'.pc u).after = true) → s'.wg (s'.reg u) = 0 := by
   intro u hu
   have h1 := h.wg1 u
   have h2 := h.wg1 t
@@ -184,6 +198,7 @@ theorem stored_step (h : Inv s) (hs : step s t x = some s') :
   have h2 := h.stored t
   have h3 := h.tmpres u
   have h4 := h.tmpres t
+  have h5 := h.cv0 t
   have h7 := h.owns u
   have h8 := h.owns t
   close_step hs
@@ -198,6 +213,7 @@ theorem calls_step (h : Inv s) (hs : step s t x = some s') :
   have h4 := h.owns (s.leader c)
   close_step hs
 
+set_option maxHeartbeats 400000 in
 theorem waits_step (h : Inv s) (hs : step s t x = some s') :
     ∀ u, (s'.pc u).waits = true → s'.reg u < s'.next ∧ s'.ekey (s'.reg u) = s'.key u
               ∧ before (s'.inv u) (s'.lret (s'.reg u)) ∧ published s' (s'.reg u) := by
@@ -230,6 +246,45 @@ theorem done_step (h : Inv s) (hs : step s t x = some s') :
   have h2 := h.owns t
   have h3 := h.stored t
   have h4 := h.wg0 t
+  close_step hs
+
+theorem cv0_step (h : Inv s) (hs : step s t x = some s') :
+    ∀ u, (s'.pc u).noRes = true → s'.cval (s'.reg u) = 0 := by
+  intro u hu
+  have h1 := h.cv0 u
+  have h2 := h.cv0 t
+  have h7 := h.owns u
+  have h8 := h.owns t
+  close_step hs
+
+theorem pnpc_step (h : Inv s) (hs : step s t x = some s') :
+    ∀ u, (s'.pc u).owns = true → s'.pn u = true → (s'.pc u).deferred = true := by
+  intro u hu hp
+  have h1 := h.pnpc u
+  have h2 := h.pnpc t
+  close_step hs
+
+theorem pnpx_step (h : Inv s) (hs : step s t x = some s') : ∀ u, s'.pc u = .px → s'.pn u = true := by
+  intro u hu
+  have h1 := h.pnpx u
+  have h2 := h.pnpx t
+  close_step hs
+
+theorem pnown_step (h : Inv s) (hs : step s t x = some s') :
+    ∀ u, (s'.pc u).owns = true → s'.pan (s'.reg u) = s'.pn u := by
+  intro u hu
+  have h1 := h.pnown u
+  have h2 := h.pnown t
+  have h7 := h.owns u
+  have h8 := h.owns t
+  close_step hs
+
+theorem panz_step (h : Inv s) (hs : step s t x = some s') :
+    ∀ c, c < s'.next → s'.pan c = true → s'.fnres c = some 0 := by
+  intro c hc hp
+  have h1 := h.panz c
+  have h2 := h.nores t
+  have h8 := h.owns t
   close_step hs
 
 theorem tinv_step (h : Inv s) (hs : step s t x = some s') : ∀ u, s'.pc u ≠ .idle → s'.inv u < s'.now := by
@@ -297,7 +352,7 @@ theorem rets_new (h : Inv s) (hs : step s t x = some s') :
   have h10 := h.stored (s.leader (s.reg t))
   have h11 := h.owns (s.leader (s.reg t))
   step_cases hs <;>
-    simp [upd, PC.owns, PC.stored, PC.waits, PC.pubd, finished, published, RetOK] at * <;> grind [before_none, before_some]
+    simp [upd, PC.owns, PC.stored, PC.waits, PC.pubd, PC.after, finished, published, RetOK] at * <;> grind [before_none, before_some]
 
 theorem rets_step (h : Inv s) (hs : step s t x = some s') : ∀ r ∈ s'.rets, RetOK s' r := by
   intro r hr
@@ -311,7 +366,8 @@ theorem rets_step (h : Inv s) (hs : step s t x = some s') : ∀ r ∈ s'.rets, R
 theorem inv_step (h : Inv s) (hs : step s t x = some s') : Inv s' :=
   ⟨lock_step h hs, lockr_step h hs, flight_step h hs, prereg_step h hs, owns_step h hs, wg1_step h hs, wg0_step h hs,
    nores_step h hs, tmpres_step h hs, stored_step h hs, calls_step h hs, waits_step h hs, woken_step h hs,
-   done_step h hs, tinv_step h hs, tlinv_step h hs, tlret_step h hs, rets_step h hs⟩
+   done_step h hs, tinv_step h hs, tlinv_step h hs, tlret_step h hs, rets_step h hs,
+   cv0_step h hs, pnpc_step h hs, pnpx_step h hs, pnown_step h hs, panz_step h hs⟩
 
 theorem inv_reach {s : St} (h : Reach s) : Inv s := by
   induction h with
@@ -322,7 +378,7 @@ theorem inv_reach {s : St} (h : Reach s) : Inv s := by
 
 def freshCount (c : CallId) (l : List Ret) : Nat := (l.filter (fun r => r.fresh && r.exec == c)).length
 
-def FreshInv (s : St) : Prop := ∀ c, freshCount c s.rets = if (s.lret c).isSome then 1 else 0
+def FreshInv (s : St) : Prop := ∀ c, freshCount c s.rets = if (s.lret c).isSome ∧ s.pan c = false then 1 else 0
 
 theorem freshCount_cons (c : CallId) (r : Ret) (l : List Ret) :
     freshCount c (r :: l) = (if r.fresh = true ∧ r.exec = c then 1 else 0) + freshCount c l := by
@@ -343,9 +399,12 @@ theorem fresh_step (h : Inv s) (hf : FreshInv s) (hs : step s t x = some s') : F
   intro c
   have h1 := hf c
   have h2 := h.owns t
+  have h4 := h.pnown t
+  have h5 := h.pnpc t
+  have h6 := h.pnpx t
   have h3 : c = s.next → freshCount c s.rets = 0 := fun hc =>
     freshCount_zero c s.rets (fun r hr => by have := (h.rets r hr).1; subst hc; exact Nat.ne_of_lt this)
-  step_cases hs <;> simp [upd, PC.owns, freshCount_cons] at * <;> grind
+  step_cases hs <;> simp [upd, PC.owns, PC.deferred, freshCount_cons] at * <;> grind
 
 theorem fresh_reach {s : St} (h : Reach s) : FreshInv s := by
   induction h with
